@@ -19,7 +19,7 @@ pub fn property() -> Property {
             "amounts stay below 2^40 so that the improvement phase's 2*x / 3*x targets cannot overflow (overflow there is arithmetic, not selection)".into(),
             "largest-first order and minimality are checked when lovelace (resp. the single requested asset) was short at entry; the 'no inputs yet but already covered' branch that takes one arbitrary UTxO is outside that precondition".into(),
         ],
-        subchecks: vec![SubCheck { name: "selection", kind: Kind::Tape { quick: 600_000, thorough: 30_000_000, max_len: 400 }, run: selection }],
+        subchecks: vec![SubCheck { name: "selection", kind: Kind::Tape { quick: 3_000_000, thorough: 40_000_000, max_len: 400 }, run: selection }],
         crash_prone: false,
         max_reject_fraction: 0.2,
         required_label_fraction: vec![("selection", "random-improve:swap-then-top-up", 0.002)],
@@ -285,14 +285,15 @@ fn selection(ctx: &mut Ctx, tape: &[u8]) -> CaseResult {
                 if let Some(m) = left_out_max {
                     ensure!(min_added >= m, "selection/largest-first-not-largest", "an added UTxO holds {} lovelace while an offered one left out holds {}; {}", min_added, m, scenario());
                 }
-                // minimal: without the smallest added UTxO the clone is short
-                if added.len() >= 1 {
-                    let smallest = added.iter().min_by_key(|k| utxos[*k].coin).unwrap();
-                    let mut clone = TransactionBuilder::new(&cfg);
-                    for o in &out_specs {
-                        let _ = clone.add_output(&TransactionOutput::new(&key_addr(0, 0), &mk_value(o.0, &o.1)));
-                    }
-                    // rebuild with identical outputs is not identical in bytes (addresses), so compare on the real builder instead:
+                // stops as soon as it is covered: the UTxO added last holds the smallest added quantity, and before
+                // it was added the builder was short. Which of several added UTxOs with that same quantity came
+                // last is the library's choice (they differ in fee when they differ in owner), so the check asks
+                // for ONE smallest added UTxO whose removal leaves the builder short.
+                let min_coin = added.iter().map(|k| utxos[k].coin).min().unwrap();
+                let mut some_removal_is_short = false;
+                let mut undecided = false;
+                let mut witness = String::new();
+                for smallest in added.iter().filter(|k| utxos[*k].coin == min_coin) {
                     let mut c2 = tb.clone();
                     let mut ib = TxInputsBuilder::new();
                     for k in &after {
@@ -302,12 +303,22 @@ fn selection(ctx: &mut Ctx, tape: &[u8]) -> CaseResult {
                         }
                     }
                     c2.set_inputs(&ib);
-                    let _ = clone;
-                    if let Ok(Ok(f2)) = catch(|| c2.min_fee()) {
-                        let coin2 = in_coin - utxos[smallest].coin as u128;
-                        ensure!(coin2 + implicit < out_coin + u64::from(f2) as u128, "selection/largest-first-not-minimal", "the selection stays covered without its smallest added UTxO ({}): {} >= {} + {}; {}", utxos[smallest].coin, coin2, out_coin, u64::from(f2), scenario());
+                    match catch(|| c2.min_fee()) {
+                        Ok(Ok(f2)) => {
+                            let coin2 = in_coin - utxos[smallest].coin as u128;
+                            if coin2 + implicit < out_coin + u64::from(f2) as u128 {
+                                some_removal_is_short = true;
+                                break;
+                            }
+                            witness = format!("{} >= {} + {}", coin2, out_coin, u64::from(f2));
+                        }
+                        _ => undecided = true,
                     }
                 }
+                if added.iter().filter(|k| utxos[*k].coin == min_coin).count() > 1 {
+                    ctx.label("largest-first:tie-among-smallest-added");
+                }
+                ensure!(some_removal_is_short || undecided, "selection/largest-first-not-minimal", "the selection stays covered without any one of its smallest added UTxOs ({}): {}; {}", min_coin, witness, scenario());
             }
             // classification from the draw log
             let mut nontrivial = false;
